@@ -2061,6 +2061,15 @@ def check_prices_to_grid(case):
         F('C19.prices.gridded_arrays_pass_through_unchanged', 'array input changed by prices_to_grid')
     if not all(np.array_equal(np.asarray(arr[k], dtype=float), np.asarray(keep[k], dtype=float)) for k in arr):
         F('C10.prices.input_not_modified', 'input arrays modified')
+    # already-gridded prices given as a frame with a plain row-number index: pass through, and the caller's frame stays what it was
+    # (its index is not replaced by this grid's time points: the same frame may be used on another grid afterwards)
+    d0 = pd.DataFrame({'p': keep['p'], 'q': keep['q']})
+    idx0 = list(d0.index)
+    df0 = tg.prices_to_grid(d0)
+    if not (list(df0.index) == list(tg.timepoints) and np.allclose(df0['p'].values.astype(float), keep['p'])):
+        F('C19.prices.gridded_arrays_pass_through_unchanged', 'frame with a row-number index changed by prices_to_grid')
+    if list(d0.index) != idx0 or not np.allclose(d0['p'].values.astype(float), keep['p']):
+        F('C10.prices.input_not_modified', f"the caller's frame was given this grid's time points as index ({list(d0.index)[:2]}..)")
     # given at the grid's own points (DataFrame with the grid's index, rows shuffled)
     d2 = pd.DataFrame({'p': keep['p']}, index=tg.timepoints)
     d2 = d2.iloc[rng.sample(range(T), T)]
@@ -2409,6 +2418,10 @@ def check_optimize_random(case):
                 u[j], c[j] = np.inf, abs(c[j]) + (0. if rng.random() < .5 else 1.)
             elif side == 'l':
                 l[j], c[j] = -np.inf, -abs(c[j]) - (0. if rng.random() < .5 else 1.)
+    if case.get('unbounded'):
+        # a one-sided variable whose cost pushes towards its infinite bound: feasible, but without optimum
+        n, m = 2, 0
+        c, l, u = np.asarray([-1., 0.]), np.asarray([0., 0.]), np.asarray([np.inf, 1.])
     A = np.asarray([[float(rng.choice([0, 0, 1, -1, 2])) for _ in range(n)] for _ in range(m)]).reshape(m, n)
     for r in range(m):
         if not np.any(A[r]):
@@ -2464,7 +2477,12 @@ def check_optimize_random(case):
     ref = milp(c, constraints=cons or None, bounds=Bounds(lo, hi), integrality=integ, options=dict(presolve=False)) if feasible_bounds else None     # (presolve off: see below)
     ref_ok = ref is not None and ref.status == 0
     if ref is not None and ref.status == 3:
-        return out          # unbounded problem (possible with one-sided variables): neither side has an optimum to compare
+        # unbounded problem (possible with one-sided variables): there is no optimum to compare.  The statement's failure clause ("reports
+        # failure => no feasible point") is violated to the letter when the optimiser reports failure here: known finding D44
+        if isinstance(res, str) and res != 'inaccurate':
+            out.append(fail('C03.failure.unbounded_problem_reported_as_failure', 'optimization:OptimProblem.optimize', case, dict(case),
+                            f'optimiser reports {res}; the problem is unbounded (feasible points exist) | c={c.tolist()} l={l.tolist()} u={u.tolist()} A={A.tolist()} b={b.tolist()} cType={ct}'))
+        return out
     F = lambda name, detail: out.append(fail(name, 'optimization:OptimProblem.optimize', case, dict(case), detail + f' | c={c.tolist()} l={l.tolist()} u={u.tolist()} A={A.tolist()} b={b.tolist()} cType={ct} bool={isb}'))
     if isinstance(res, str):
         if res != 'inaccurate' and ref_ok:
